@@ -51,3 +51,61 @@ package ecs
 //@   ensures  inv: bitPoolInv(p)
 //@   ensures  empty: p.length == 0 && p.available == 0 && *bpIssued(p) == 0
 //@   ensures  none: forall b uint8 :: !bitIssued(p, b)
+
+// entityPool: implicit free list threaded through the id fields of dead slots.
+// Ghost: epFree is the stack of dead ids (position -> id), epRank its inverse (id -> position+1,
+// 0 = live), epIssued the set of handles issued since creation/reset, epAlive the live count.
+
+//@ ghost func epFree(p *entityPool) map[uint64]uint32
+//@ ghost func epRank(p *entityPool) map[uint32]uint64
+//@ ghost func epIssued(p *entityPool) map[Entity]bool
+//@ ghost func epAlive(p *entityPool) *uint64
+
+//@ spec func alive(p *entityPool, e Entity) bool :=
+//@      uint64(e.id) < uint64(len(p.entities)) && p.entities[e.id].gen == e.gen
+
+//@ pred poolInv(p *entityPool) :=
+//@      uint64(len(p.entities)) <= 1<<32 && uint64(p.reserved) <= uint64(len(p.entities))
+//@   && *epAlive(p) + uint64(p.available) + uint64(p.reserved) == uint64(len(p.entities))
+//@   && (forall i uint32 :: p.reserved <= entityID(i) && uint64(i) < uint64(len(p.entities)) && epRank(p)[i] == 0 ==>
+//@         uint32(p.entities[i].id) == i)
+//@   && (forall i uint32 :: p.reserved <= entityID(i) && uint64(i) < uint64(len(p.entities)) && epRank(p)[i] != 0 ==>
+//@         epRank(p)[i] <= uint64(p.available) && epFree(p)[epRank(p)[i]-1] == i)
+//@   && (forall k uint64 :: k < uint64(p.available) ==>
+//@         p.reserved <= entityID(epFree(p)[k]) && uint64(epFree(p)[k]) < uint64(len(p.entities)) && epRank(p)[epFree(p)[k]] == k+1)
+//@   && (forall k uint64 :: 1 <= k && k < uint64(p.available) ==> uint32(p.entities[epFree(p)[k]].id) == epFree(p)[k-1])
+//@   && (p.available > 0 ==> uint32(p.next) == epFree(p)[uint64(p.available)-1])
+//@   && (forall h Entity :: epIssued(p)[h] ==>
+//@         p.reserved <= h.id && uint64(h.id) < uint64(len(p.entities)) && h.gen <= p.entities[h.id].gen
+//@         && (h.gen == p.entities[h.id].gen ==> epRank(p)[uint32(h.id)] == 0))
+
+//@ func (*entityPool).Get
+//@   serves C02 C17
+//@   requires poolInv(p) && uint64(len(p.entities)) < 1<<32
+//@   ghost    epRank(p)[uint32(result.id)] = 0; epIssued(p)[result] = true; *epAlive(p) = old(*epAlive(p)) + 1
+//@   ensures  inv: poolInv(p)
+//@   ensures  fresh: !old(epIssued(p)[result])
+//@   ensures  alive: alive(p, result) && p.reserved <= result.id
+//@   ensures  others: forall h Entity :: h.id != result.id ==> alive(p, h) == old(alive(p, h))
+//@   ensures  issued: forall h Entity :: epIssued(p)[h] == (old(epIssued(p)[h]) || h == result)
+//@   ensures  count: *epAlive(p) == old(*epAlive(p)) + 1
+
+//@ func (*entityPool).Recycle
+//@   serves C02 C04 C16 C17
+//@   requires poolInv(p) && alive(p, e) && epIssued(p)[e]
+//@   assumes  p.available < 0xffffffff
+//@   ghost    epFree(p)[uint64(old(p.available))] = uint32(e.id); epRank(p)[uint32(e.id)] = uint64(old(p.available)) + 1; *epAlive(p) = old(*epAlive(p)) - 1
+//@   ensures  inv: poolInv(p)
+//@   ensures  dead: !alive(p, e)
+//@   ensures  others: forall h Entity :: h.id != e.id ==> alive(p, h) == old(alive(p, h))
+//@   ensures  never-again: forall h Entity :: epIssued(p)[h] ==> !(h.id == e.id && alive(p, h))
+//@   ensures  issued: forall h Entity :: epIssued(p)[h] == old(epIssued(p)[h])
+//@   ensures  count: *epAlive(p) == old(*epAlive(p)) - 1
+
+//@ func (*entityPool).Reset
+//@   serves C02 C16
+//@   requires poolInv(p)
+//@   ghost    clear(epIssued(p)); *epAlive(p) = 0
+//@   ensures  inv: poolInv(p)
+//@   ensures  empty: *epAlive(p) == 0 && p.available == 0 && len(p.entities) == int(p.reserved)
+//@   ensures  none-issued: forall h Entity :: !epIssued(p)[h]
